@@ -771,14 +771,67 @@ fn c16_keys_sequence(leg: &mut Leg, seed: u64) {
     }
 }
 
+/// The limiter checks under a read lock and charges under a write lock, so K in-flight queries of one source can all be granted
+/// on the same tokens.  That overdraft is tolerated -- but it has to be paid back: over any history the tokens granted stay
+/// below B + R*dt + (K-1)*cost.  Replayed here on one bucket: K checks against the same state, then the charges.
+fn c16_racy_bucket_case(leg: &mut Leg, r: &mut Rng, case_seed: u64) {
+    let b_tokens = ev::GenericTokenBucket::VERIF_MAX_TOKENS as u64;
+    let rate = ev::GenericTokenBucket::VERIF_TOKENS_PER_SECOND as u64;
+    leg.eval();
+    let replay = json!({"engine": "c16-racy-bucket", "case_seed": case_seed});
+    let k = r.range(2, 6);
+    let cost = *r.pick(&[200u32, 250, 500, 1000]);
+    let steps = r.range(20, 80);
+    let start: u32 = 1_700_000_000 + r.below(1_000_000) as u32;
+    let res = guard::guard(|| {
+        let mut bucket = ev::GenericTokenBucket::new();
+        let mut t = start;
+        set_now(t);
+        let mut granted: u64 = 0;
+        let mut worst: Option<(u64, u64, u32)> = None;
+        for _ in 0..steps {
+            t += match r.below(4) {
+                0 => 0,
+                1 => r.range(1, 60) as u32,
+                2 => r.range(60, 300) as u32,
+                _ => r.range(300, 700) as u32,
+            };
+            set_now(t);
+            let oks: Vec<bool> = (0..k).map(|_| bucket.check::<VClock>(cost)).collect();
+            for ok in oks {
+                if ok {
+                    bucket.deplete::<VClock>(cost);
+                    granted += cost as u64;
+                }
+            }
+            let bound = b_tokens + rate * (t - start) as u64 + (k - 1) * cost as u64;
+            if granted > bound && worst.is_none() {
+                worst = Some((granted, bound, t - start));
+            }
+        }
+        worst
+    });
+    leg.class(format!("racy-bucket|k{}|cost{}", k, cost));
+    leg.count("racy_bucket_histories", 1);
+    match res {
+        Err(p) => leg.violation(format!("C16/bucket-panic/{}", p.class()), format!("{} at {}", p.message, p.location), replay),
+        Ok(Some((g, b, dt))) => leg.violation(
+            "C16/overdraft-never-paid-back",
+            format!("{} in-flight checks per arrival, cost {}: {} tokens granted within {} s, bound B + R*dt + (K-1)*cost = {}", k, cost, g, dt, b),
+            replay,
+        ),
+        Ok(None) => {}
+    }
+}
+
 pub fn run_c16(seed: u64, thorough: bool, shards: u64) -> Leg {
     let mut total = Leg::new(
         "c16-bucket-cookie-inproc",
         "C16",
-        "GenericTokenBucket under a virtual clock (start times incl. near 2^31 and 2^32; arrival styles: flood, steady, bursts with idle gaps, sparse; costs 1..3B): every window of grants checked against B + R*dt with B,R read from the code's constants, quiet sources (idle >= B/R) must be granted costs <= B; cookie issue/validate with explicit keys: same addresses under current/previous/older key, other client address, other server address, other client cookie, flipped, truncated, absent; the listener's IpRateLimiter (two hashed buckets per source) and its should_ratelimit decision on a per-thread offset of the limiter's own clock, 1-3 sources, floods/bursts/idle gaps: per source every window of grants <= 2*(B + R*dt) tokens at the documented cost max(2*reply-query, 200), and after the whole limiter was idle for the refill period the next refused query must be answered however many attempts were dropped before; the process-wide cookie keys on tokio's paused clock (once per run): cookies forged under guessable keys in the first key period, an issued cookie from another client/server address, and an issued cookie after more than two key periods (server queried in every period / not at all) must not exempt; distinct = (arrival style, start class, grants) or (cookie, family) or (limiter, entry, style, sources, cost class, drops)",
+        "GenericTokenBucket under a virtual clock (start times incl. near 2^31 and 2^32; arrival styles: flood, steady, bursts with idle gaps, sparse; costs 1..3B): every window of grants checked against B + R*dt with B,R read from the code's constants, quiet sources (idle >= B/R) must be granted costs <= B; cookie issue/validate with explicit keys: same addresses under current/previous/older key, other client address, other server address, other client cookie, flipped, truncated, absent; the check-then-charge race of the limiter replayed on one bucket (K in-flight checks against the same state, then the charges): the overdraft must be paid back, tokens granted <= B + R*dt + (K-1)*cost over every history; the listener's IpRateLimiter (two hashed buckets per source) and its should_ratelimit decision on a per-thread offset of the limiter's own clock, 1-3 sources, floods/bursts/idle gaps: per source every window of grants <= 2*(B + R*dt) tokens at the documented cost max(2*reply-query, 200), and after the whole limiter was idle for the refill period the next refused query must be answered however many attempts were dropped before; the process-wide cookie keys on tokio's paused clock (once per run): cookies forged under guessable keys in the first key period, an issued cookie from another client/server address, and an issued cookie after more than two key periods (server queried in every period / not at all) must not exempt; distinct = (arrival style, start class, grants) or (cookie, family) or (limiter, entry, style, sources, cost class, drops)",
     );
     total.floor = 500;
-    let n: u64 = if thorough { 600_000 } else { 12_000 };
+    let n: u64 = if thorough { 600_000 } else { 16_000 };
     let mut handles = Vec::new();
     {
         // the process-wide cookie keys: first, alone, while they are still in their initial state
@@ -798,9 +851,10 @@ pub fn run_c16(seed: u64, thorough: bool, shards: u64) -> Leg {
             for i in 0..n / shards {
                 let case_seed = seed.wrapping_mul(999_983).wrapping_add(shard * 7_000_003 + i);
                 let mut r = Rng::new(case_seed);
-                match i % 3 {
+                match i % 4 {
                     0 => c16_bucket_case(&mut leg, &mut r, case_seed),
                     1 => c16_cookie_case(&mut leg, &mut r, case_seed),
+                    2 => c16_racy_bucket_case(&mut leg, &mut r, case_seed),
                     _ => c16_limiter_case(&mut leg, &mut r, case_seed),
                 }
             }
@@ -823,6 +877,8 @@ pub fn replay_c16(v: &serde_json::Value) -> Leg {
     let mut r = Rng::new(cs);
     if v["engine"].as_str() == Some("c16-cookie") {
         c16_cookie_case(&mut leg, &mut r, cs);
+    } else if v["engine"].as_str() == Some("c16-racy-bucket") {
+        c16_racy_bucket_case(&mut leg, &mut r, cs);
     } else if v["engine"].as_str() == Some("c16-limiter") {
         c16_limiter_case(&mut leg, &mut r, cs);
     } else {
